@@ -453,15 +453,30 @@ func init() {
 			for _, k := range []string{"sellpool", "buypool", "sellallpool", "addorder", "remorder", "sell", "buy", "sellall", "addliq", "remliq"} {
 				p.W[k] = 10
 			}
-			return baseScenario("C06", r, seed, chain, tier, p, func(g *GenCfg, n *NodeCfg) {
+			sc := baseScenario("C06", r, seed, chain, tier, p, func(g *GenCfg, n *NodeCfg) {
 				g.NPool = 2 + r.Intn(4)
 				g.NCoin = 1 + r.Intn(3)
 				if r.Intn(4) == 0 {
 					g.PriceCoin = true
 				}
 			})
+			// one run in three also judges counterfactual variants with tight limits (the limit exactly at,
+			// and one unit beyond, what a trade or a liquidity removal really obtained): CheckTx and
+			// DeliverTx must agree on them and neither may panic
+			if r.Intn(3) == 0 {
+				sc.Params = map[string]int64{"c06_tight": 1}
+				if len(sc.Blocks) > 40 {
+					sc.Blocks = sc.Blocks[:40]
+				}
+			}
+			return sc
 		},
-		Monitors: func(sc *Scenario) []Monitor { return []Monitor{&MonC06{}} },
+		Monitors: func(sc *Scenario) []Monitor {
+			if sc.Params["c06_tight"] == 1 {
+				return []Monitor{&MonC06{}, &MonProbe{Oracles: []Prober{OracleC13{}, OracleC15{}}}}
+			}
+			return []Monitor{&MonC06{}}
+		},
 		Distinct: func(w *World) []string {
 			for _, m := range w.Monitors {
 				if c, ok := m.(*MonC06); ok {
